@@ -3,6 +3,7 @@ package c12
 import (
 	"fmt"
 	"math/rand"
+	"strings"
 )
 
 const (
@@ -10,7 +11,15 @@ const (
 	nPair   = 10 * 10 * 4   // break-after × break-before × nesting variant
 	nDeco   = 8 * 4 * 22    // block arrangement × border/padding split × page height
 	nTables = nOW + nPair + nDeco
+	nUnit   = 16 * 10 * 3 // margin/padding form × unit × sheet shape; these cases come last (after the random ones)
 )
+
+func nRandom(tier string) int {
+	if tier == "thorough" {
+		return 200000
+	}
+	return 10000
+}
 
 var breakVals = []string{"", "avoid", "avoid-page", "avoid-column", "column", "page", "left", "right", "recto", "verso"}
 
@@ -22,6 +31,8 @@ func genCase(r *rand.Rand, i int, tier string) any {
 		return genPair(i - nOW)
 	case i < nTables:
 		return genDeco(i - nOW - nPair)
+	case i >= nTables+nRandom(tier):
+		return genUnit(i - nTables - nRandom(tier))
 	}
 	return genRandom(r)
 }
@@ -128,6 +139,109 @@ func genDeco(j int) In {
 	in.Items = []Item{leaf("u0", 20), x, leaf("u9", 20)}
 	in.buildDoc(noLegacy)
 	return in
+}
+
+// unitToks: four literal values per unit (used in this order by the 1–4 value shorthands).
+var unitNames = []string{"px", "pt", "pc", "mm", "cm", "in", "Q", "em", "%", "mix"}
+
+var unitToks = map[string][4]string{
+	"px": {"12px", "8px", "20px", "4px"},
+	"pt": {"9pt", "6pt", "15pt", "3pt"},
+	"pc": {"1.5pc", "0.5pc", "2pc", "1pc"},
+	"mm": {"5mm", "3mm", "8mm", "2mm"},
+	"cm": {"0.5cm", "0.3cm", "0.8cm", "0.2cm"},
+	"in": {"0.25in", "0.125in", "0.375in", "0.0625in"},
+	"Q":  {"40Q", "20Q", "30Q", "10Q"},
+	"em": {"1.5em", "0.5em", "2em", "1em"},
+	"%":  {"10%", "5%", "12.5%", "2.5%"},
+}
+
+// genUnit: the value syntax of the page-box margins and paddings.  One declaration — one of the
+// eight longhands, or the margin / padding shorthand with 1 to 4 values — written in each length
+// unit, in percentages, or mixed (auto margins, percentages next to lengths), after a base rule
+// `margin: 20px`, on a portrait, a landscape and a square sheet: percentages of the top and bottom
+// sides refer to the sheet height, those of the left and right sides to its width, so the two
+// non-square sheets tell the references apart.  Ten 50px blocks make two or three pages.
+func genUnit(j int) In {
+	form := j % 16
+	unit := unitNames[(j/16)%10]
+	sheet := [][2]int{{300, 420}, {420, 300}, {360, 360}}[j/160]
+	in := In{Kind: "unit-table", FS: 10}
+	var d Decl
+	prop := "margin"
+	if form >= 4 && form < 8 || form >= 12 {
+		prop = "padding"
+	}
+	toks := unitToks[unit]
+	if unit == "mix" {
+		if prop == "margin" {
+			toks = [4]string{"auto", "5%", "1em", "6pt"}
+		} else {
+			toks = [4]string{"7.5%", "2mm", "10%", "0.5em"}
+		}
+	}
+	if form < 8 {
+		d = Decl{P: prop + "-" + sides4[form%4], V: []int{0}, T: []string{toks[0]}}
+	} else {
+		cnt := (form-8)%4 + 1
+		d = Decl{P: prop, V: make([]int, cnt), T: append([]string{}, toks[:cnt]...)}
+	}
+	in.Rules = []Rule{
+		{Origin: "author", Decls: []Decl{{P: "size", V: []int{sheet[0], sheet[1]}}, {P: "margin", V: []int{20}}, {P: "mbox", V: []int{0}}}},
+		{Origin: "author", Decls: []Decl{d}},
+	}
+	for k := 0; k < 10; k++ {
+		in.Items = append(in.Items, Item{Kind: "leaf", ID: fmt.Sprintf("u%d", k), H: 50})
+	}
+	in.buildDoc(noLegacy)
+	return in
+}
+
+// genUnits rewrites a part of the @page margin / padding values of a random document in other
+// units, in percentages or (margins) as auto, and a part of the sizes in pt / pc (same size).
+// Magnitudes stay in the range of the px values (margins up to 32px or 12.5%, paddings up to 12px
+// or 5%), so the page content box keeps a positive height.
+func genUnits(r *rand.Rand, in *In) {
+	marginToks := []string{
+		"3pt", "9pt", "12pt", "18pt", "24pt", "0.5pc", "1pc", "2pc", "2mm", "5mm", "8mm", "0.2cm", "0.5cm", "0.8cm",
+		"0.125in", "0.25in", "8Q", "20Q", "32Q", "0.5em", "1em", "1.5em", "2em", "auto",
+	}
+	marginPerc := []string{"2%", "4%", "5%", "8%", "10%", "12.5%"}
+	paddingToks := []string{"3pt", "6pt", "9pt", "0.5pc", "0.75pc", "1mm", "2mm", "3mm", "0.1cm", "0.3cm", "0.125in", "4Q", "12Q", "0.25em", "0.5em", "0.75em"}
+	paddingPerc := []string{"1%", "2%", "2.5%", "4%", "5%"}
+	for ri := range in.Rules {
+		for di := range in.Rules[ri].Decls {
+			d := &in.Rules[ri].Decls[di]
+			switch {
+			case d.P == "size":
+				if !chance(r, 0.3) {
+					continue
+				}
+				d.T = make([]string, 2)
+				for q, v := range d.V {
+					if chance(r, 0.5) {
+						d.T[q] = fmt.Sprintf("%gpt", float64(v)*0.75)
+					} else {
+						d.T[q] = fmt.Sprintf("%gpc", float64(v)/16)
+					}
+				}
+			case strings.HasPrefix(d.P, "margin"), strings.HasPrefix(d.P, "padding"):
+				toks, perc := marginToks, marginPerc
+				if strings.HasPrefix(d.P, "padding") {
+					toks, perc = paddingToks, paddingPerc
+				}
+				d.T = make([]string, len(d.V))
+				for q := range d.V {
+					switch x := r.Float64(); {
+					case x < 0.4:
+						d.T[q] = pick(r, perc)
+					case x < 0.7:
+						d.T[q] = pick(r, toks)
+					}
+				}
+			}
+		}
+	}
 }
 
 // genDecoration gives a block vertical padding and borders on the 4px lattice of the heights.
@@ -421,6 +535,12 @@ func genRandom(r *rand.Rand) In {
 			}
 		}
 	}
+	// values of the @page margins, paddings and sizes in other units and in percentages (drawn after
+	// everything else: the other documents are the same with and without)
 	in.buildDoc(func() bool { return chance(r, p.legacy) })
+	if !tiny && chance(r, 0.3) {
+		genUnits(r, &in)
+		in.assemble()
+	}
 	return in
 }
